@@ -1092,31 +1092,25 @@ pub fn gen_document(t: &mut Tape, schema: &mut Schema, cfg: &GenCfg) -> Document
             let on = Named::Object(oi);
             if let Some(f) = schema_ro.objects[oi].fields.iter().find(|f| f.ty.named == on && f.ty.can_terminate()) {
                 if let Some(lf) = schema_ro.objects[oi].fields.iter().find(|lf| !lf.ty.named.is_composite()) {
-                    let a = names::frag_name(t, &mut module_scope, &cfg.names);
-                    let b = names::frag_name(t, &mut module_scope, &cfg.names);
+                    // a cycle of 2-4 fragments: F0 -> F1 -> .. -> F0, every hop through the self-referential field
+                    let k = *t.pick(&[2usize, 2, 3, 3, 4]);
+                    let names_k: Vec<String> = (0..k).map(|_| names::frag_name(t, &mut module_scope, &cfg.names)).collect();
                     let tn = schema_ro.objects[oi].name.clone();
                     let leaf = |alias: &str| Selection::Field(FieldSel { alias: Some(alias.into()), name: lf.name.clone(), args: vec![], sel: vec![] });
                     // each spread of the cycle alone in its field, or next to a sibling field (then the
-                    // fragment is a flattened member, not an alias): none, one or both
-                    let sib = t.below(4);
-                    let mut sel_a = vec![Selection::Spread(b.clone())];
-                    let mut sel_b = vec![Selection::Spread(a.clone())];
-                    if sib == 1 || sib == 3 {
-                        sel_a.insert(0, leaf("sibA"));
+                    // fragment is a flattened member, not an alias): decided per hop
+                    for (idx, name) in names_k.iter().enumerate() {
+                        let next = names_k[(idx + 1) % k].clone();
+                        let mut inner = vec![Selection::Spread(next)];
+                        if t.chance(40) {
+                            inner.insert(0, leaf(&format!("sib{}", (b'A' + idx as u8) as char)));
+                        }
+                        g.frags.push(Fragment {
+                            name: name.clone(),
+                            on: tn.clone(),
+                            sel: vec![leaf(&format!("leaf{}", (b'A' + idx as u8) as char)), Selection::Field(FieldSel { alias: None, name: f.name.clone(), args: vec![], sel: inner })],
+                        });
                     }
-                    if sib == 2 || sib == 3 {
-                        sel_b.insert(0, leaf("sibB"));
-                    }
-                    g.frags.push(Fragment {
-                        name: a.clone(),
-                        on: tn.clone(),
-                        sel: vec![leaf("leafA"), Selection::Field(FieldSel { alias: None, name: f.name.clone(), args: vec![], sel: sel_a })],
-                    });
-                    g.frags.push(Fragment {
-                        name: b,
-                        on: tn,
-                        sel: vec![leaf("leafB"), Selection::Field(FieldSel { alias: None, name: f.name.clone(), args: vec![], sel: sel_b })],
-                    });
                     break;
                 }
             }
